@@ -58,6 +58,17 @@ class HelpersMachine(Machine):
             types = [rng.choice(["int", "float", "str", "bool", "default"]) for _ in range(nc)]
         cfg["cols"] = COLS[:nc]
         cfg["types"] = types
+        # content handed to the constructor instead of appended later
+        cfg["init_rows"] = []
+        if cfg["initial"] and target.startswith("table"):
+            ks = rng.sample(cfg["keys"], rng.randint(1, min(3, len(cfg["keys"]))))
+            cfg["init_rows"] = [[k, [rng.randint(0, 9) for _ in range(nf)]] for k in ks]
+        cfg["init_data"] = []
+        if cfg["initial"] and target.startswith("rows"):
+            def cell(t):
+                return {"int": 1, "float": 1.5, "str": "ab", "bool": True, "int_none": 2,
+                        "default": 2.0}[t]
+            cfg["init_data"] = [[cell(t) for t in types] for _ in range(rng.randint(1, 3))]
         cfg["dict_start"] = rng.random() < 0.3 and target in ("rows_list", "rows_array")
         if cfg["dict_start"] and target == "rows_array":
             # columns created by the first dict row are plain float columns; rows mix
@@ -75,9 +86,17 @@ class HelpersMachine(Machine):
         if self.kind.startswith("table"):
             self.fields = list(c["fields"])
             self.keyed = self.kind == "table_keyed"
-            self.t = ParameterTable(list(self.fields), keys=self.keyed) if self.keyed \
-                else ParameterTable(list(self.fields))
-            self.model = {} if self.keyed else []
+            init = c.get("init_rows") or []
+            if self.keyed:
+                params = {k: list(v) for k, v in init}
+                self.t = ParameterTable(list(self.fields), params, keys=True) if params \
+                    else ParameterTable(list(self.fields), keys=True)
+                self.model = {k: dict(zip(self.fields, v)) for k, v in init}
+            else:
+                rows = [list(v) for _, v in init]
+                self.t = ParameterTable(list(self.fields), rows) if rows \
+                    else ParameterTable(list(self.fields))
+                self.model = [dict(zip(self.fields, v)) for _, v in init]
         else:
             self.cols = list(c["cols"])
             self.types = list(c["types"])
@@ -91,12 +110,22 @@ class HelpersMachine(Machine):
                 for n, t in zip(self.cols, self.types):
                     spec[n] = {} if t == "default" else {"dtype": {"int": int, "float": float,
                                                                   "str": str, "bool": bool}[t]}
-                self.rc = RowCollector(list(self.cols) if plain else spec, array=True)
+                self._columns_arg = list(self.cols) if plain else spec
+                self.rc = RowCollector(self._columns_arg, array=True)
                 self.cols_known = True
             else:
                 self.rc = RowCollector(list(self.cols))
                 self.cols_known = True
             self.rows = []
+            init = c.get("init_data") or []
+            if init and self.cols_known:
+                # same collector, but the first rows go through the constructor
+                spec = getattr(self, "_spec", None)
+                if self.array:
+                    self.rc = RowCollector(self._columns_arg, [list(r) for r in init], array=True)
+                else:
+                    self.rc = RowCollector(list(self.cols), [list(r) for r in init])
+                self.rows = [[self._cast(v, t) for v, t in zip(r, self.types)] for r in init]
         self.abstract = "n0"
 
     # ------------------------------------------------------------------ generation
